@@ -460,7 +460,16 @@ class WorkerPool:
                 raise ValueError("pool is shutting down")
             self._running.add(reply)
             if not self._try_send_to_primary_thread(reply):
-                self.execmodel.start(self._perform_spawn, (reply,))
+                try:
+                    self.execmodel.start(self._perform_spawn, (reply,))
+                except BaseException:
+                    # no thread to run it: the task is not accepted after
+                    # all and must not count as running for ever
+                    self._running.remove(reply)
+                    if not self._running:
+                        while self._waitall_events:
+                            self._waitall_events.pop().set()
+                    raise
         return reply
 
     def terminate(self, timeout: float | None = None) -> bool:
